@@ -33,6 +33,8 @@ def children():
     yield "half-adder", build({"x": ("input", []), "y": ("input", []), "c": ("and", ["x", "y"]), "s": ("xor", ["x", "y"])}, outputs=["c", "s"])
     yield "inv-chain", build({"i": ("input", []), "n1": ("not", ["i"]), "n2": ("nand", ["n1", "i"]), "o": ("buf", ["n2"])}, outputs=["o", "n1"])
     yield "out-is-in", build({"p": ("input", []), "q": ("input", []), "g": ("nor", ["p", "q"])}, outputs=["g", "p"])
+    # nets whose names differ only by a leading underscore (`t` / `_t`), an input named `_i`: the instance prefix keeps them apart
+    yield "underscore-led-names", build({"_i": ("input", []), "i": ("input", []), "t": ("and", ["_i", "i"]), "_t": ("nor", ["_i", "i"]), "o": ("xor", ["t", "_t"])}, outputs=["o", "_t"])
     yield "with-const", build({"a": ("input", []), "k": ("1", []), "g": ("xnor", ["a", "k"])}, outputs=["g"])
     ff = RefBlackBox("ff", ["d"], ["q"])
     yield "with-blackbox", build({"a": ("input", []), "r.d": ("bb_input", ["a"]), "r.q": ("bb_output", []), "w": ("buf", ["r.q"]), "o": ("and", ["w", "a"])}, outputs=["o"], blackboxes={"r": ff})
